@@ -501,11 +501,13 @@ func parseFormat(origFmt string, separator string, separator2 string, containerF
 
 	flags := group[1]
 
+	// as in C, '+' overrides ' ' as the sign flag; a space still means "no delimiters" for containers
 	plus := byte(0)
-	if hasDelimOnce(flags, origFmt, ' ') {
-		plus = ' '
-	} else if hasDelimOnce(flags, origFmt, '+') {
+	space := hasDelimOnce(flags, origFmt, ' ')
+	if hasDelimOnce(flags, origFmt, '+') {
 		plus = '+'
+	} else if space {
+		plus = ' '
 	}
 
 	foundDelim := byte(0)
@@ -518,8 +520,8 @@ func parseFormat(origFmt string, separator string, separator2 string, containerF
 		}
 	}
 
-	if foundDelim == 0 && plus == ' ' {
-		foundDelim = plus
+	if foundDelim == 0 && space {
+		foundDelim = ' '
 	}
 
 	width := -1
